@@ -126,3 +126,114 @@ func H_Cleanup() {
 		}
 	}
 }
+
+const outID = "o1"
+
+func depPtr() resource.Metadata {
+	return resource.NewMetadata(tres.NS, tres.TypeB, outID, resource.VersionUndefined)
+}
+
+// H_CleanupOutputs (C07): the cleanup controller with the library's own RemoveOutputs handler and a
+// dependent output selected by label: whatever third parties do to the dependent output (finalizers
+// added or removed at any store-call boundary inside a reconcile, destruction), the controller's
+// finalizer leaves the torn-down input only when no dependent output exists any more.
+func H_CleanupOutputs() {
+	ctx, cancel := context.WithCancel(context.Background())
+	defer cancel()
+	core := &tres.Interpose{Inner: namespaced.NewState(inmem.Build)}
+	st := state.WrapCore(core)
+	handler := cleanup.RemoveOutputs[*tres.B](func(in *tres.A) state.ListOption {
+		return state.WithLabelQuery(resource.LabelEqual("parent", in.Metadata().ID()))
+	})
+	ctrl := cleanup.NewController(cleanup.Settings[*tres.A]{Name: cleanupName, Handler: handler})
+	db, _ := dependency.NewDatabase()
+	opts := options.DefaultOptions()
+	opts.MetricsEnabled = false
+	ad, err := rruntime.NewAdapter(ctrl, adapter.Options{Logger: zap.NewNop(), State: st, Cache: cache.NewResourceCache(nil), DepDB: db, RuntimeOptions: opts,
+		RegisterWatch: func(resource.Namespace, resource.Type) error { return nil }})
+	verif.Assert(err == nil, "adapter created")
+	go func() {
+		for ctx.Err() == nil {
+			ctrl.Run(ctx, ad, zap.NewNop()) //nolint:errcheck
+		}
+	}()
+	verif.Quiesce()
+	reconcile := func() { ad.QueueReconcile(); verif.Quiesce() }
+	// pre-state: a running input that carries the controller's finalizer, and its dependent output
+	core.RunAsEnv(func() {
+		verif.Assert(st.Create(ctx, tres.NewA(tres.NS, inID, "c")) == nil, "input created")
+	})
+	reconcile()
+	core.RunAsEnv(func() {
+		in, gerr := st.Get(ctx, inPtr())
+		verif.Assert(gerr == nil && in.Metadata().Finalizers().Has(cleanupName), "a running input carries the cleanup finalizer")
+		out := tres.NewB(tres.NS, outID, "dep")
+		out.Metadata().Labels().Set("parent", inID)
+		if verif.Choose("outputHeldByThirdParty", 2) == 1 {
+			out.Metadata().Finalizers().Add("ext")
+		}
+		verif.Assert(st.Create(ctx, out) == nil, "dependent output created")
+	})
+	third := func() {
+		switch verif.Choose("thirdPartyOp", 3) {
+		case 0:
+			st.AddFinalizer(ctx, depPtr(), "ext") //nolint:errcheck
+		case 1:
+			st.RemoveFinalizer(ctx, depPtr(), "ext") //nolint:errcheck
+		case 2:
+			st.Destroy(ctx, depPtr()) //nolint:errcheck
+		}
+	}
+	budget := 1
+	core.Env = func(string, resource.Pointer) {
+		if budget > 0 && verif.Choose("interfere here", 2) == 1 {
+			budget--
+			third()
+			verif.Cover("third party acts inside a reconcile")
+		}
+	}
+	steps := 2
+	if verif.Tier() == "thorough" {
+		steps = 3
+	}
+	for k, n := 0, 1+verif.Choose("nsteps", steps); k < n; k++ {
+		core.RunAsEnv(func() {
+			if verif.Choose("actor", 2) == 0 {
+				st.Teardown(ctx, inPtr()) //nolint:errcheck
+			} else {
+				third()
+			}
+		})
+		if verif.Choose("reconcile now", 2) == 1 {
+			reconcile()
+		}
+	}
+	core.Env = nil
+	reconcile()
+	// monitor over the write log: the release of the input happens only when no dependent output exists
+	outExists := false
+	for _, wr := range core.Log {
+		if wr.After != nil && wr.After.Metadata().Type() == tres.TypeB || wr.Before != nil && wr.Before.Metadata().Type() == tres.TypeB {
+			outExists = wr.Kind != "destroy"
+			continue
+		}
+		if wr.Before == nil || wr.After == nil {
+			continue
+		}
+		if wr.Before.Metadata().Finalizers().Has(cleanupName) && !wr.After.Metadata().Finalizers().Has(cleanupName) {
+			verif.Cover("input released")
+			verif.Assert(wr.Actor == "caller" && wr.Before.Metadata().Phase() == resource.PhaseTearingDown, "only the controller releases its finalizer, and only on a torn-down input")
+			verif.Assert(!outExists, "the cleanup finalizer is released only after the dependent outputs are gone")
+		}
+	}
+	// liveness at quiescence: once third parties let go, a torn-down input is cleaned up and released
+	core.RunAsEnv(func() { st.RemoveFinalizer(ctx, depPtr(), "ext") }) //nolint:errcheck
+	reconcile()
+	reconcile()
+	if in, gerr := st.Get(ctx, inPtr()); gerr == nil && in.Metadata().Phase() == resource.PhaseTearingDown {
+		_, oerr := st.Get(ctx, depPtr())
+		verif.Assert(state.IsNotFoundError(oerr), "the dependent output of a torn-down input is removed once nobody holds it")
+		verif.Assert(!in.Metadata().Finalizers().Has(cleanupName), "and then the input is released")
+		verif.Cover("torn-down input cleaned up")
+	}
+}
